@@ -471,6 +471,17 @@ def rule_openers(prog, fixture=False):
                     if gz is not None:
                         break
                 child = a
+            if gz is None:
+                # the test may sit in a bool (`const bool compressed = extensions.back() == "gz"`): branch facts
+                gg = Guards(fn)
+                for atom, val in (gg.truths(n) or []):
+                    a = strip_all(atom)
+                    if a is not None and a.get("k") == "DeclRefExpr" and a.get("d") in gg.bool_defs:
+                        # what the bool recorded when it was set is what selects the reader
+                        a = strip_all(gg.bool_defs[a["d"]])
+                    if a is not None and a.get("k") in ("CXXOperatorCallExpr", "BinaryOperator") and a.get("op") in ("==", "!=") and \
+                            any(x.get("k") == "StringLiteral" and x.get("s") == "gz" for x in walk(a)):
+                        gz = val if a["op"] == "==" else (not val)
             want = (made == "decompressed")
             r.add(key, fn.loc(n), gz == want, "chosen by the gz extension" if gz == want else
                   "the %s reader is not selected by `last extension %s \"gz\"`" % (made, "==" if want else "!="))
